@@ -10,6 +10,7 @@ import polars as pl
 from pandera.api.base.types import CheckList
 from pandera.api.dataframe.components import ComponentSchema
 from pandera.api.polars.types import PolarsCheckObjects, PolarsDtypeInputTypes
+from pandera.api.polars.utils import collect_validated
 from pandera.backends.polars.register import register_polars_backends
 from pandera.config import config_context, get_config_context
 from pandera.engines import polars_engine
@@ -162,7 +163,7 @@ class Column(ComponentSchema[PolarsCheckObjects]):
             )
 
         if is_dataframe:
-            output = output.collect()
+            output = collect_validated(self, output, lazy)
 
         return output
 
